@@ -464,7 +464,7 @@ func byteHeapFact(m Term) string {
 
 // rawLoad reads a value of Go type t at address a from byte heap m.
 func (fv *FuncVC) rawLoad(m Term, a Term, t types.Type) Term {
-	switch u := t.Underlying().(type) {
+	switch u := under(t).(type) {
 	case *types.Basic:
 		switch {
 		case u.Info()&types.IsBoolean != 0:
@@ -501,7 +501,7 @@ func (fv *FuncVC) rawLoad(m Term, a Term, t types.Type) Term {
 
 // rawStore writes v of Go type t at address a, returning the new byte heap.
 func (fv *FuncVC) rawStore(m Term, a Term, t types.Type, v Term) Term {
-	switch u := t.Underlying().(type) {
+	switch u := under(t).(type) {
 	case *types.Basic:
 		switch {
 		case u.Info()&types.IsBoolean != 0:
@@ -537,7 +537,7 @@ func (fv *FuncVC) rawStore(m Term, a Term, t types.Type, v Term) Term {
 
 // typedLoad reads a value of type t through a typed pointer with address a.
 func (fv *FuncVC) typedLoad(s *State, a Term, t types.Type) Term {
-	switch u := t.Underlying().(type) {
+	switch u := under(t).(type) {
 	case *types.Struct:
 		si := fv.TE.StructInfo(t)
 		var args []Term
@@ -560,7 +560,7 @@ func (fv *FuncVC) typedLoad(s *State, a Term, t types.Type) Term {
 }
 
 func (fv *FuncVC) typedStore(s *State, a Term, t types.Type, v Term) {
-	switch t.Underlying().(type) {
+	switch under(t).(type) {
 	case *types.Struct:
 		si := fv.TE.StructInfo(t)
 		for _, f := range si.Fields {
@@ -578,7 +578,7 @@ func (fv *FuncVC) typedStore(s *State, a Term, t types.Type, v Term) {
 
 // fieldLoad reads field f of the struct of type st at base address a.
 func (fv *FuncVC) fieldLoad(s *State, a Term, st types.Type, f structField) Term {
-	switch f.Type.Underlying().(type) {
+	switch under(f.Type).(type) {
 	case *types.Struct:
 		return fv.typedLoad(s, add(a, intLit(f.Off)), f.Type)
 	case *types.Array:
@@ -591,7 +591,7 @@ func (fv *FuncVC) fieldLoad(s *State, a Term, st types.Type, f structField) Term
 }
 
 func (fv *FuncVC) fieldStore(s *State, a Term, st types.Type, f structField, v Term) {
-	switch f.Type.Underlying().(type) {
+	switch under(f.Type).(type) {
 	case *types.Struct:
 		fv.typedStore(s, add(a, intLit(f.Off)), f.Type, v)
 		return
@@ -606,7 +606,7 @@ func (fv *FuncVC) fieldStore(s *State, a Term, st types.Type, f structField, v T
 
 // zeroValue returns the zero value term of type t.
 func (fv *FuncVC) zeroValue(t types.Type) Term {
-	switch u := t.Underlying().(type) {
+	switch u := under(t).(type) {
 	case *types.Basic:
 		switch {
 		case u.Info()&types.IsBoolean != 0:
@@ -785,7 +785,7 @@ func (fv *FuncVC) heapsWrittenBy(addr ssa.Value, vt types.Type) []string {
 }
 
 func (fv *FuncVC) heapsOfField(st types.Type, f structField) []string {
-	switch f.Type.Underlying().(type) {
+	switch under(f.Type).(type) {
 	case *types.Struct:
 		return fv.heapsOfType(f.Type)
 	}
@@ -793,7 +793,7 @@ func (fv *FuncVC) heapsOfField(st types.Type, f structField) []string {
 }
 
 func (fv *FuncVC) heapsOfType(t types.Type) []string {
-	switch t.Underlying().(type) {
+	switch under(t).(type) {
 	case *types.Struct:
 		var out []string
 		si := fv.TE.StructInfo(t)
